@@ -136,10 +136,14 @@ class PopUpTarget(WidgetDecoration[WrappedWidget]):
 
     def get_cursor_coords(self, size: tuple[int, int]) -> tuple[int, int] | None:
         self._update_overlay(size, True)
+        if not hasattr(self._current_widget, "get_cursor_coords"):
+            return None
         return self._current_widget.get_cursor_coords(size)
 
-    def get_pref_col(self, size: tuple[int, int]) -> int:
+    def get_pref_col(self, size: tuple[int, int]) -> int | None:
         self._update_overlay(size, True)
+        if not hasattr(self._current_widget, "get_pref_col"):
+            return None
         return self._current_widget.get_pref_col(size)
 
     def keypress(self, size: tuple[int, int], key: str) -> str | None:
@@ -148,6 +152,8 @@ class PopUpTarget(WidgetDecoration[WrappedWidget]):
 
     def move_cursor_to_coords(self, size: tuple[int, int], x: int, y: int):
         self._update_overlay(size, True)
+        if not hasattr(self._current_widget, "move_cursor_to_coords"):
+            return True
         return self._current_widget.move_cursor_to_coords(size, x, y)
 
     def mouse_event(
